@@ -9,6 +9,7 @@ package c18
 import (
 	"fmt"
 	"io/fs"
+	"sort"
 	"strings"
 	"testing"
 
@@ -160,6 +161,7 @@ func keys(m map[string]bool) []string {
 	for k := range m {
 		out = append(out, k)
 	}
+	sort.Strings(out)
 	return out
 }
 
